@@ -40,11 +40,16 @@ def _work_receiver(fn: FuncInfo, recv: ast.AST, table: str = 'self.works') -> bo
     """receiver expression denotes an element of the works table"""
     if isinstance(recv, ast.Subscript) and attr_chain(recv.value) == table:
         return True
+    if isinstance(recv, ast.Call) and attr_chain(recv.func) in (table + '.pop', table + '.get'):
+        return True
     if isinstance(recv, ast.Name):
         for n in walk_no_nested(fn.node):
             if isinstance(n, ast.Assign) and any(isinstance(t, ast.Name) and t.id == recv.id for t in n.targets):
                 v = n.value
                 if isinstance(v, ast.Subscript) and attr_chain(v.value) == table:
+                    return True
+                # taken out of the table: self.works.pop(id) / self.works.get(id)
+                if isinstance(v, ast.Call) and attr_chain(v.func) in (table + '.pop', table + '.get'):
                     return True
                 # the executor's own factory of work objects
                 if isinstance(v, ast.Call) and attr_chain(v.func) == 'self.create':
@@ -266,6 +271,12 @@ def run(ch: Checker) -> None:
     content_length_flag_check(ch, 'C05.11')
 
     # ---- C05.13 (shared)
+    ch.rule('C05.14', 'one readiness event pays for one non-blocking read: in the connection class and the event handlers a receive on a connection is not repeated on a path and not placed in a loop (no handler blocks the shared loop in a read that no readiness event covers)', 4)
+    from .common import single_recv_check
+    single_recv_check(ch, 'C05.14')
+    ch.rule('C05.15', 'configuration is shared by every connection of a worker: per-connection code never stores into or mutates <...>.flags.<name>, directly or through a local that names the same object (expected 0 sites)', 1)
+    from .common import shared_config_mutation_check
+    shared_config_mutation_check(ch, 'C05.15')
     ch.import_rules('C16', {'C16.3': 'C05.13'}, 'the web server feeds frame.parse() its own remainder until it is empty: a parse that can return its input unconsumed spins the worker forever')
 
     # ---- C05.9 (shared)
